@@ -110,6 +110,16 @@ Cyclic == \E b \in Leaves : OnCycle(b)
 
 Topological(ord) == \A x, y \in 1..Len(ord) : Edge(ord[x], ord[y]) => x < y
 
+\* the same predicate in O(leaves * ports): last position in ord of a combinational driver of each wire
+RECURSIVE MarkOuts(_, _, _, _)
+MarkOuts(f, outs, k, pos) == IF k > Len(outs) THEN f ELSE MarkOuts([f EXCEPT ![outs[k]] = pos], outs, k + 1, pos)
+RECURSIVE DrvPosFrom(_, _, _)
+DrvPosFrom(f, ord, k) == IF k > Len(ord) THEN f
+                         ELSE DrvPosFrom(IF IsComb(ord[k]) THEN MarkOuts(f, L(ord[k]).outs, 1, k) ELSE f, ord, k + 1)
+TopoWith(ord, dp) == \A y \in 1..Len(ord) : IsComb(ord[y]) =>
+                         \A i \in 1..Len(L(ord[y]).ins) : dp[L(ord[y]).ins[i]] < y
+TopologicalFast(ord) == TopoWith(ord, DrvPosFrom([w \in Wires |-> 0], ord, 1))
+
 \* every wire driven by a combinational leaf holds what that leaf computes
 AtFixpoint(v) ==
     \A b \in Leaves : IsComb(b) =>
@@ -250,6 +260,8 @@ TypeOK == \A w \in Wires : val[w] \in 0..(Pow2(net.width[w]) - 1)
 
 \* C04
 SortedIsTopological == pc \in {"idle", "edge", "settled"} => Topological(order)
+\* the linear formulation used on large extracted netlists is the same predicate
+TopoFastAgrees      == order # <<>> => (Topological(order) = TopologicalFast(order))
 CyclicRefused       == pc \in {"idle", "edge", "settled"} => ~Cyclic
 AcyclicAccepted     == pc = "raised" => Cyclic
 FixpointWhenIdle    == pc \in {"idle", "settled"} /\ ~taint /\ ~dirty => AtFixpoint(val)
